@@ -6,10 +6,92 @@ use crate::{
     def::{compile_def, compile_main},
 };
 use core_lang::syntax::names::Identifier;
+use fun::syntax::{
+    declarations::Def,
+    names::{Name, fresh_name},
+    terms::{Call, Term, XVar},
+};
 
 use std::collections::VecDeque;
 
-/// This function translates a typechecked [Fun](fun) program into a [Core](core_lang) program.
+/// This function checks whether a term contains a call of a given top-level function.
+/// - `term` is the term.
+/// - `name` is the name of the top-level function.
+fn calls(term: &Term, name: &str) -> bool {
+    match term {
+        Term::XVar(_) | Term::Lit(_) => false,
+        Term::Op(op) => calls(&op.fst, name) || calls(&op.snd, name),
+        Term::IfC(ifc) => {
+            calls(&ifc.fst, name)
+                || ifc.snd.as_ref().is_some_and(|snd| calls(snd, name))
+                || calls(&ifc.thenc, name)
+                || calls(&ifc.elsec, name)
+        }
+        Term::PrintI64(print) => calls(&print.arg, name) || calls(&print.next, name),
+        Term::Let(r#let) => calls(&r#let.bound_term, name) || calls(&r#let.in_term, name),
+        Term::Call(call) => {
+            call.name == name || call.args.entries.iter().any(|arg| calls(arg, name))
+        }
+        Term::Constructor(ctor) => ctor.args.entries.iter().any(|arg| calls(arg, name)),
+        Term::Destructor(dtor) => {
+            calls(&dtor.scrutinee, name) || dtor.args.entries.iter().any(|arg| calls(arg, name))
+        }
+        Term::Case(case) => {
+            calls(&case.scrutinee, name)
+                || case.clauses.iter().any(|clause| calls(&clause.body, name))
+        }
+        Term::New(new) => new.clauses.iter().any(|clause| calls(&clause.body, name)),
+        Term::Label(label) => calls(&label.term, name),
+        Term::Goto(goto) => calls(&goto.term, name),
+        Term::Exit(exit) => calls(&exit.arg, name),
+        Term::Paren(paren) => calls(&paren.inner, name),
+    }
+}
+
+/// This function creates the entry point of a program in which `main` is called like any other
+/// top-level function. In such a program `main` has to return to its caller, so it is translated
+/// with a consumer parameter (see [compile_def]) and the program starts at a fresh label whose
+/// body calls `main` with the parameters of the program:
+/// ```text
+/// def entry(x_1, ...) { main(x_1, ...) }
+/// ```
+/// which [compile_main] translates to a call of `main` with the consumer that terminates the
+/// program.
+/// - `main` is the top-level function `main`.
+/// - `name` is the label of the entry point.
+fn entry_def(main: &Def, name: Name) -> Def {
+    let args = main
+        .context
+        .bindings
+        .iter()
+        .map(|binding| {
+            XVar {
+                span: main.span,
+                var: binding.var.clone(),
+                ty: Some(binding.ty.clone()),
+                chi: Some(binding.chi.clone()),
+            }
+            .into()
+        })
+        .collect();
+    Def {
+        span: main.span,
+        name,
+        context: main.context.clone(),
+        ret_ty: main.ret_ty.clone(),
+        body: Call {
+            span: main.span,
+            name: main.name.clone(),
+            args: fun::syntax::arguments::Arguments { entries: args },
+            ret_ty: Some(main.ret_ty.clone()),
+        }
+        .into(),
+    }
+}
+
+/// This function translates a typechecked [Fun](fun) program into a [Core](core_lang) program. The
+/// translation of the top-level function `main` comes first; if `main` is called somewhere in the
+/// program, its translation is preceded by the entry point of the program (see [entry_def]).
 /// - `program` is the typechecked [Fun](fun) program.
 pub fn compile_prog(prog: fun::syntax::program::CheckedProgram) -> core_lang::syntax::Prog {
     let mut data_types = Vec::new();
@@ -31,13 +113,21 @@ pub fn compile_prog(prog: fun::syntax::program::CheckedProgram) -> core_lang::sy
     }
 
     let mut used_labels = prog.defs.iter().map(|def| def.name.clone()).collect();
+    // usually `main` only terminates the program, but if it is called somewhere it also has to
+    // return to its caller
+    let main_is_called = prog.defs.iter().any(|def| calls(&def.body, "main"));
     let mut defs_translated = VecDeque::new();
     for def in prog.defs {
         if def.name == "main" {
-            for def_main in compile_main(def, codata_types.as_slice(), &mut used_labels)
-                .into_iter()
-                .rev()
-            {
+            let defs_main = if main_is_called {
+                let entry = entry_def(&def, fresh_name(&mut used_labels, "main"));
+                let mut defs_main = compile_main(entry, codata_types.as_slice(), &mut used_labels);
+                defs_main.extend(compile_def(def, codata_types.as_slice(), &mut used_labels));
+                defs_main
+            } else {
+                compile_main(def, codata_types.as_slice(), &mut used_labels)
+            };
+            for def_main in defs_main.into_iter().rev() {
                 defs_translated.push_front(def_main);
             }
         } else {
